@@ -665,8 +665,10 @@ def letter_spaces(rep, M, rid):
                         return (("L", d[2]) + (k[2:3] if k and k[0] == "L" else ())) if isinstance(d[2], str) else d[2]
             if isinstance(f, ast.Name) and f.id in ("list", "tuple", "sorted") and e.args:
                 return ty(e.args[0], loc)
-            if isinstance(f, ast.Attribute) and f.attr in ("array", "asarray") and e.args:
+            if isinstance(f, ast.Attribute) and f.attr in ("array", "asarray", "copy") and e.args:
                 return ty(e.args[0], loc)
+            if isinstance(f, ast.Attribute) and f.attr == "copy" and not e.args:
+                return ty(f.value, loc)
             if isinstance(f, ast.Name) and f.id == "enumerate" and e.args:
                 t = ty(e.args[0], loc)
                 if t and t[0] == "L":
@@ -758,6 +760,19 @@ def letter_spaces(rep, M, rid):
                     env[s.targets[0].id] = t
                 elif isinstance(s.value, ast.List) and not s.value.elts:
                     env[s.targets[0].id] = ("EMPTY",)
+            elif isinstance(s, ast.Assign) and isinstance(s.targets[0], ast.Subscript) and isinstance(s.targets[0].value, ast.Name) \
+                    and isinstance(s.targets[0].slice, ast.Compare) and len(s.targets[0].slice.ops) == 1 and isinstance(s.targets[0].slice.ops[0], ast.Eq):
+                # vectorised substitution  A[B == old] = new  (one statement per entry of the permutation)
+                a, m = s.targets[0].value.id, s.targets[0].slice
+                ta, tb, tk, tv = env.get(a), ty(m.left), ty(m.comparators[0]), ty(s.value)
+                if ta and ta[0] == "L" and tk and tk[0] == "L" and tv and tv[0] == "L":
+                    if isinstance(m.left, ast.Name) and m.left.id == a:
+                        errors.append((s, "the mask is taken from the array that is being rewritten, so a letter that has already been replaced is "
+                                          "replaced again by a later entry (a swap {a: b, b: a} collapses to one letter, longer cycles chain)"))
+                    elif tb and tb[0] == "L" and tb[1] != tk[1]:
+                        errors.append((s, f"{tb[1]} letters are compared with {tk[1]} letters"))
+                    elif tb and tb[0] == "L":
+                        env[a] = ("L", tv[1]) + tb[2:3]
             elif isinstance(s, ast.For):
                 it = ty(s.iter)
                 bind(s.target, it, env)
@@ -774,8 +789,8 @@ def letter_spaces(rep, M, rid):
                 ret[0] = ty(s.value)
     visit(fn.body)
     for node, msg in errors:
-        rep.violation(rid, f"get_wyckoff_letters_original: `{norm(node)[:60]}`", msg + ": the letters of the original atoms go through the inverse of the "
-                      "chosen normalizer permutation (differs from the permutation itself for 3- and 4-cycles)", M.where(fq, node))
+        rep.violation(rid, f"get_wyckoff_letters_original: `{norm(node)[:60]}`", msg + (": the letters of the original atoms go through the inverse of the "
+                      "chosen normalizer permutation (differs from the permutation itself for 3- and 4-cycles)" if "keyed by" in msg else ""), M.where(fq, node))
     if errors:
         return
     if ret[0] is None:
